@@ -137,7 +137,7 @@ class Evaluator:
                 else:
                     return operands[0] - operands[1]
             elif node.op == "m":
-                return operands[1] if operands[0] else operands[2]
+                return operands[1] if operands[0] & (2**len(node.operands[0]) - 1) else operands[2]
             else:
                 return str2op[node.op](*operands)
         elif isinstance(node, _Slice):
